@@ -39,6 +39,11 @@ class ExonCorrector:
             corrected_exons += [(new_introns[-1][1] + 1, read_region[1])]
         else:
             corrected_exons = [(read_region[0], read_region[1])]
+        if any(exon[0] > exon[1] for exon in corrected_exons) or \
+                any(corrected_exons[i][1] >= corrected_exons[i + 1][0] for i in range(len(corrected_exons) - 1)):
+            # a corrected splice site went past the end of a short terminal exon (or past a neighbouring junction):
+            # keep the alignment as it is rather than report empty or overlapping blocks
+            return alignment_info.read_exons
         return corrected_exons
 
     def correct_fuzzy_junctions(self, alignment_info, read_assignment):
